@@ -197,3 +197,49 @@ def resolve(st, e, depth=0):
         else:
             out.append(x)
     return tuple(out)
+
+
+_OPCALL = {'shr': 'Shr', 'shl': 'Shl', 'bitand': 'BitAnd', 'bitor': 'BitOr', 'bitxor': 'BitXor', 'add': 'Add', 'sub': 'Sub', 'mul': 'Mul'}
+
+
+def eval_int(e, env, depth=0):
+    """integer value of a pure expression when every leaf in `env` (expr -> int) is given: constants, arithmetic / bit operators
+    (also in their trait-call form `<&u8 as Shr<i32>>::shr`), integer casts, comparisons (0/1).  None when something else occurs."""
+    e = strip(e)
+    if e in env:
+        return env[e]
+    if depth > 40:
+        return None
+    if e[0] == 'const':
+        return e[1]
+    if e[0] == 'cast':
+        v = eval_int(e[1], env, depth + 1)
+        m = re.match(r'^[ui](8|16|32|64|128|size)$', e[2] or '')
+        if v is None or not m:
+            return None
+        bits = 64 if m.group(1) == 'size' else int(m.group(1))
+        v &= (1 << bits) - 1
+        if e[2].startswith('i') and v >= (1 << (bits - 1)):
+            v -= 1 << bits
+        return v
+    op = None
+    if e[0] == 'bin':
+        op, a, b = e[1].replace('WithOverflow', '').replace('Unchecked', ''), e[2], e[3]
+    elif e[0] == 'call' and len(e[3]) == 2:
+        m = re.search(r'std::ops::(\w+)<.*>>::(\w+)$', e[1])
+        if m and m.group(2) in _OPCALL:
+            op, a, b = _OPCALL[m.group(2)], e[3][0], e[3][1]
+    if op is None:
+        if e[0] == 'un' and e[1] == 'Not':
+            v = eval_int(e[2], env, depth + 1)
+            return None if v is None else ~v
+        return None
+    x, y = eval_int(a, env, depth + 1), eval_int(b, env, depth + 1)
+    if x is None or y is None:
+        return None
+    try:
+        return {'Add': x + y, 'Sub': x - y, 'Mul': x * y, 'BitAnd': x & y, 'BitOr': x | y, 'BitXor': x ^ y,
+                'Shl': x << y if 0 <= y < 128 else None, 'Shr': x >> y if 0 <= y < 128 else None,
+                'Eq': int(x == y), 'Ne': int(x != y), 'Lt': int(x < y), 'Le': int(x <= y), 'Gt': int(x > y), 'Ge': int(x >= y)}.get(op)
+    except Exception:
+        return None
